@@ -37,14 +37,55 @@ def run(chk, tier, seed):
             return evs
         allev = [e for evs in common.pmap(do, list(enumerate(keys))) for e in evs]
         for e in allev:
+            if e["e"] != "read":
+                continue
             g = e["g"]
             b = min(g["L"], g["S"] - g["o"], g["F"] - g["o"])
             end = e["start"] + e["nsec"] + (1 if e["rem"] else 0)
             chk.case((e["kind"], e["start"], e["nsec"], e["rem"], e["cmd"]), nontrivial=end >= b - 2)
+        # catalogues that claim more sectors than the surface has (HDFS: top bit of the title adds 512 to the total):
+        # extract-unused walks up to the claimed total and must not deliver a neighbouring slot / side
+        import mkdisc, shutil
+        conf = []
+        for kind in ("mmb", "dsd"):
+            n = 800 if kind == "mmb" else 400
+            surf = []
+            for k in range(3 if kind == "mmb" else 2):
+                img = mkdisc.blank_surface(n, 70 + k)
+                s0, s1 = mkdisc.catalog_fragment(b"\xc8DFS", 0, 0, n - 300, [mkdisc.entry("A", length=256, start=10)], byte6_extra=8)
+                mkdisc.put(img, 0, s0); mkdisc.put(img, 1, s1)
+                surf.append(img)
+            path = os.path.join(scratch, "claim." + kind)
+            if kind == "mmb":
+                mkdisc.write(path, mkdisc.container_mmb({k: bytes(v) for k, v in enumerate(surf)}))
+            else:
+                mkdisc.write(path, mkdisc.container_interleaved(surf[0], surf[1], 10))
+            st = mkdisc.Stamps()
+            for k in range(len(surf)):
+                st.add(70 + k, n)
+            dest = os.path.join(scratch, "claim-" + kind)
+            os.makedirs(dest)
+            o = common.run([dfs, "--file", path, "--drive", "0", "extract-unused", dest], timeout=60)
+            foreign = 0
+            nfiles = 0
+            for fn in os.listdir(dest):
+                nfiles += 1
+                data = open(os.path.join(dest, fn), "rb").read()
+                for sg in st.segments(data):
+                    if sg is None or sg[0] != 70:
+                        foreign += 1
+            shutil.rmtree(dest, ignore_errors=True)
+            conf.append(dict(e="confine", kind=kind + "-hdfs-claim", cmd="extract-unused", foreign=foreign, files=nfiles, rc=o.rc if o.rc is not None else -9,
+                             err=1 if o.err.strip() else 0, clean=o.ok_alphabet()))
+            chk.case((kind, "hdfs-claim", "extract-unused"))
+        allev += conf
         chk.sample(allev[len(allev) // 2])
         chk.sample(allev[-1])
 
         def describe(e):
+            if e["e"] == "confine":
+                return ("%s:%s" % (e["kind"], e["cmd"]), "%s on a %s image whose catalogue claims more sectors than the surface has: %d chunks from "
+                        "another surface delivered in %d files, rc=%s" % (e["cmd"], e["kind"], e["foreign"], e["files"], e["rc"]), e)
             return ("%s:%s" % (e["kind"], e["cmd"]),
                     "%s on %s image: entry start=%d sectors=%d+%dB in region %r -> rc=%s stderr=%s delivered=%d chunks (%d foreign) %s"
                     % (e["cmd"], e["kind"], e["start"], e["nsec"], e["rem"], e["g"], e["rc"], "yes" if e["err"] else "EMPTY",
